@@ -14,6 +14,8 @@ from __future__ import annotations
 
 import ast
 
+from flow import BaseClient, function_exits
+
 from common import Finding, norm
 import rules_t1
 from rules_writes import collect_writes, root_name, MUTATORS
@@ -26,9 +28,52 @@ DUNDERS = {"__deepcopy__", "__copy__", "__reduce__", "__reduce_ex__", "__getstat
            "__getnewargs_ex__"}
 
 
+class _AttachClient(BaseClient):
+    """typestate of copy(): ATTACHED = the copy may already have been put into a collection (`copy.parent = ..`, or a generic
+    `setattr(copy, k, v)` whose key may be "parent"); afterwards nothing that can still reject the call may run"""
+    def __init__(self, copy_vars):
+        self.copy_vars, self.bad = copy_vars, []
+        self.not_parent = set()
+
+    def call_may_raise(self, call):
+        return False
+
+    def assume(self, test, branch, S):
+        # `k != "parent"` / `k == "parent"` / `k in ("parent",)`: inside the branch where k cannot be "parent" a setattr does not attach
+        if isinstance(test, ast.Compare) and len(test.ops) == 1 and isinstance(test.left, ast.Name) and isinstance(test.comparators[0], ast.Constant) \
+                and test.comparators[0].value == "parent":
+            is_ne = isinstance(test.ops[0], ast.NotEq)
+            if isinstance(test.ops[0], (ast.Eq, ast.NotEq)) and (branch == is_ne):
+                return frozenset(S | {("NOTPARENT", test.left.id)})
+        if isinstance(test, ast.Call) and isinstance(test.func, ast.Attribute) and test.func.attr == "startswith" and isinstance(test.func.value, ast.Name) \
+                and test.args and isinstance(test.args[0], ast.Constant) and not "parent".startswith(str(test.args[0].value)) and branch:
+            return frozenset(S | {("NOTPARENT", test.func.value.id)})
+        return S
+
+    def transfer(self, s, S):
+        fallible = [c for c in ast.walk(s) if isinstance(c, ast.Call) and (getattr(c.func, "id", "") == "setattr" or getattr(c.func, "attr", "") in ("update", "_process_style_kwargs"))]
+        fallible += [t for t in (s.targets if isinstance(s, ast.Assign) else []) if isinstance(t, ast.Attribute) and isinstance(t.value, ast.Name)
+                     and t.value.id in self.copy_vars and not t.attr.startswith("_")]
+        if ("ATTACHED",) in S and fallible and s not in self.bad:
+            self.bad.append(s)
+        attach = False
+        if isinstance(s, ast.Assign) and any(isinstance(t, ast.Attribute) and t.attr == "parent" and isinstance(t.value, ast.Name) and t.value.id in self.copy_vars for t in s.targets):
+            attach = True
+        for c in ast.walk(s):
+            if isinstance(c, ast.Call) and getattr(c.func, "id", "") == "setattr" and len(c.args) == 3 and isinstance(c.args[0], ast.Name) and c.args[0].id in self.copy_vars:
+                k = c.args[1]
+                if isinstance(k, ast.Constant):
+                    attach = attach or k.value == "parent"
+                elif not (isinstance(k, ast.Name) and ("NOTPARENT", k.id) in S):
+                    attach = True
+        if attach:
+            S = frozenset(S | {("ATTACHED",)})
+        return S
+
+
 def run(repo, res, tier):
     res.rules = ["K1 returns deepcopy(self)", "K2 parent detach restored on all exits", "K3 no copy customisation",
-                 "K4 no mutated class-level containers", "K5 writes target the copy", "K6 keyword overrides / lazy style kwargs not shared (ORIGIN)"]
+                 "K4 no mutated class-level containers", "K5 writes target the copy", "K6 keyword overrides / lazy style kwargs not shared (ORIGIN)", "K7 the copy joins its new parent last"]
     geo = repo.cls("BaseGeo")
     res.require("copy" in geo.methods, "anchor vanished: BaseGeo.copy")
     fn = geo.methods["copy"]
@@ -98,6 +143,13 @@ def run(repo, res, tier):
         if not ok:
             res.add(Finding("K5", rel, "BaseGeo.copy", f"deepcopy(self) while self may have a parent: {norm(dc)}",
                             "the copy would keep (a deep copy of) the parent collection", dc.lineno))
+    # ---- K7: the copy is attached to a collection (parent= override) only when nothing can reject the call any more
+    ac = _AttachClient(copy_vars)
+    function_exits(fn, ac)
+    res.ob("K7:copy attached to its new parent last", not ac.bad, {"rule": "K7", "fallible_statements_after_attaching": [norm(b) for b in ac.bad]})
+    for b in ac.bad[:1]:
+        res.add(Finding("K7", rel, "BaseGeo.copy", b, "an override that can still be rejected is applied after the copy may already have been put into a collection "
+                        "(parent= handled in the generic keyword loop): x.copy(parent=c, dimension='bad') raises and leaves a half-made copy inside c", b.lineno))
     # ---- K5 writes
     for w in collect_writes(fn, set(repo.classes)):
         if w.recv == "self" and w.attr == "_parent":
